@@ -203,7 +203,9 @@ func (p *conn) Close() error {
 		_ = p.w.Close()
 	})
 	<-p.done // nothing of the plugin survives Close
-	if first && p.closeErr != "" {
+	_ = first
+	if p.closeErr != "" {
+		// every attempt to close reports the error (like a container engine answering "no such container")
 		return fmt.Errorf("%s", p.closeErr)
 	}
 	return nil
